@@ -48,6 +48,9 @@ Definition upper (c : N) : str :=
   else if c =? 64256 then [70; 70]    (* ff *)
   else if c =? 64257 then [70; 73]    (* fi *)
   else if c =? 64258 then [70; 76]    (* fl *)
+  else if c =? 64259 then [70; 70; 73] (* ffi *)
+  else if c =? 64260 then [70; 70; 76] (* ffl *)
+  else if c =? 7831 then [84; 776]    (* t with diaeresis -> T + combining diaeresis *)
   else if c =? 233 then [201]         (* e acute *)
   else [c].
 Definition lower (c : N) : str :=
